@@ -316,3 +316,72 @@ def canon_dict_lenient(kind, d):
     elif kind == 'model' and isinstance(d, dict):
         fix_di(d.get('datainfo'))
     return d
+
+
+def frame(df):
+    """A pandas DataFrame as PV.C12.Model.frame: cells as hash_array sees them (floats by bit pattern)."""
+    import struct
+
+    import numpy as np
+    import pandas as pd
+
+    def cell(v):
+        if isinstance(v, (bool, np.bool_)):
+            return f'(CBool {cbool(bool(v))})'
+        if isinstance(v, (int, np.integer)):
+            return f'(CInt {cz(int(v))})'
+        if isinstance(v, (float, np.floating)):
+            bits = struct.unpack('>Q', struct.pack('>d', float(v)))[0]
+            return f'(CFloat {cz(bits)})'
+        if isinstance(v, str):
+            return f'(CStr {cstr(v)})'
+        raise Unconvertible(f'cell of type {type(v).__name__}')
+    for c in df.columns:
+        if not isinstance(c, str):
+            raise Unconvertible('column label that is not a str')
+    ix = df.index
+    if isinstance(ix, pd.RangeIndex):
+        index = f'(IRange {cz(int(ix.start))} {cz(int(ix.stop))} {cz(int(ix.step))})'
+    elif type(ix) is pd.Index:
+        index = f'(ILabels {ct.lst([cell(v) for v in ix.tolist()])} {cstr(str(ix.dtype))} {copt(cstr, ix.name)})'
+    else:
+        raise Unconvertible(f'index of type {type(ix).__name__}')
+    rows = ct.lst([ct.lst([cell(v) for v in row]) for row in df.itertuples(index=False, name=None)])
+    return (f'(mkFrame {ct.lst([cstr(c) for c in df.columns])} {ct.lst([cstr(str(d)) for d in df.dtypes])} '
+            f'{index} {rows})')
+
+
+def rfield(v):
+    """An attribute of a results object as PV.C12.Model.rfield over the dictionary engine of Check.v."""
+    import json
+    from pathlib import Path
+
+    import pandas as pd
+    from pharmpy.model import Model
+    from pharmpy.workflows import Log
+    from pharmpy.workflows.results import _df_to_json
+
+    def items(d):
+        t = pyv(d)
+        assert t.startswith('(PDict ')
+        return t[len('(PDict '):-1]
+    if isinstance(v, pd.DataFrame):
+        return f'(FFr {items(_df_to_json(v.copy()))})'
+    if isinstance(v, pd.Series):
+        return f'(FSe {items(_df_to_json(v.to_frame()))})'
+    if isinstance(v, Log):
+        return f'(FLo {items(v.to_dict())})'
+    if isinstance(v, Model):
+        return 'FMo'
+    if isinstance(v, Path):
+        return f'(FPa {cstr(str(v))})'
+    try:
+        json.dumps(v)
+    except TypeError:
+        return 'FOt'
+    return f'(FPl {pyv(v)})'
+
+
+def results(r):
+    fields = ct.lst([f'({cstr(k)}, {rfield(v)})' for k, v in vars(r).items()])
+    return f'(Res {cstr(type(r).__module__)} {cstr(type(r).__qualname__)} {fields})'
